@@ -20,6 +20,10 @@ GROUPS = {
                  modpath="verif_spec", crate=CORE),
     "c20": dict(file="c20.rs", into="weechess-core/src/moves.rs", scope=None, mod="verif_c20", pub=True,
                 modpath="moves::verif_c20", crate=CORE),
+    "c02": dict(file="c02.rs", into="weechess-core/src/state.rs", scope=None, mod="verif_c02", pub=True,
+                modpath="state::verif_c02", crate=CORE),
+    "c15": dict(file="c15.rs", into="weechess-engine/src/searcher.rs", scope=None, mod="verif_c15", pub=False,
+                modpath="searcher::verif_c15", crate=ENGINE),
 }
 
 C20M = "crate::moves::verif_c20::"
@@ -129,6 +133,71 @@ PROPS["C20"] = dict(
     trusted=["serde derive expansion is what rustc compiles (it is part of the verified program text)"],
 )
 
+STEP_FNS = ["State::by_performing_move", "Board::new", "Board::piece_map", "Board::piece_occupancy", "BitBoard::set",
+            "Square::offset", "Square::from((Rank,File))", "Color::backward", "PieceIndex::new"]
+PROPS["C02"] = dict(
+    obligations=[
+        K("c02", "c02_step_" + c, desc="by_performing_move on a fully symbolic position and a symbolic consistent move of "
+          "class '%s', both colours: placement at a symbolic square == mailbox spec, occupancy fields, side, four "
+          "castling rights, ep target, both clocks, argument untouched" % c, functions=STEP_FNS, timeout=1500)
+        for c in ["quiet", "capture", "double_step", "en_passant", "promotion", "promotion_capture", "castle_king",
+                  "castle_queen"]
+    ],
+    assumptions=[],
+    technique="Kani/CBMC: pre/post contract of State::by_performing_move over fully symbolic positions and moves",
+    level_text="Proof, complete per step: by_performing_move is executed symbolically on a fully symbolic position "
+               "(16 pairwise-disjoint bitboards, side, rights, ep target, clocks) and a fully symbolic move of each of the "
+               "eight move classes, and the successor is compared with a mailbox-level spec at a symbolic square; sequences "
+               "of moves follow by induction because by_performing_moves applies exactly one such step per loop iteration.",
+    level_note="Precondition: the move is consistent with the position (implied by 'legal move of a legal position'), a held "
+               "castling right implies king and rook at home, clocks < usize::MAX. Trusted: Kani/CBMC, the mailbox spec.",
+)
+
+def V(name, fns, desc, **kw):
+    o = dict(name=name, backend="verus", kind="verus", tier="quick", desc=desc, functions=fns, verus_fns=[f.split("::")[-1] for f in fns],
+             file="tt_contracts.rs")
+    o.update(kw)
+    return o
+
+
+PROPS["C15"] = dict(
+    obligations=[
+        K("c15", "c15_bucket_empty_wf", desc="empty bucket satisfies the invariant, holds nothing", functions=["TranspositionBucket::empty"]),
+        K("c15", "c15_bucket_find_contract", desc="find(h) == the entry stored under exactly h, or None; fully symbolic 8 slots",
+          functions=["TranspositionBucket::find"]),
+        K("c15", "c15_bucket_insert_contract", desc="insert_or_replace: find(h)==e afterwards; other keys kept unless Replaced "
+          "(bucket full, h absent, exactly one victim); Inserted <=> count+1; invariant preserved; fully symbolic 8 slots",
+          functions=["TranspositionBucket::insert_or_replace", "TranspositionInsertionResult::inserted"]),
+        V("c15_table_find", ["TranspositionTable::find"], "Verus, Vec of any length: find(h) == view(h), reads only bucket h % len"),
+        V("c15_table_insert", ["TranspositionTable::insert", "lemma_sum_update", "lemma_sum_strict", "lemma_sum_bound"],
+          "Verus, Vec of any length: insert preserves wf (used_slots == sum of occupied, no overflow), establishes "
+          "get(h)==Some(e), changes only bucket h % len, other keys kept unless displaced from the full bucket"),
+        V("c15_table_entries", ["TranspositionTable::entries", "TranspositionTable::max_entries", "TranspositionInsertionResult::inserted"],
+          "Verus: entries == number of occupied slots <= max_entries == 8*len"),
+        V("c15_verus_canaries", [], "three must-fail lemmas (requires <precondition> ensures false) do fail", canary=True),
+    ],
+    assumptions=[
+        "each operation holds the RwLock of its sub-table for its whole duration (every access is self.tables[i].write()/read()"
+        ".unwrap().<op>), std::sync::RwLock is correct, no unsafe: concurrent histories are linearised per sub-table; "
+        "entries() across sub-tables is not an atomic snapshot -- concurrency is ASSUMED, not proved",
+        "the Verus prelude restates the Kani-proved bucket contract (find / insert_or_replace) as assume_specification-style "
+        "external_body specs; consistency of the two statements is by review",
+        "bucket count > 0 and 8*len <= usize::MAX (requires; the property's quantifier starts at 1)",
+    ],
+    assumed_contracts=["TranspositionBucket::{find,insert_or_replace} in Verus = the contract Kani proves (c15_bucket_*)"],
+    not_claimed=["behaviour under real thread interleavings (assumed via lock discipline)",
+                 "the routing layer TranspositionTableAccess::{insert,find} (hash % tables.len() then RwLock read/write): a "
+                 "harness through std::sync::RwLock exhausted the 12 GB cap in CBMC even for 2 sub-tables x 2 buckets, so it is "
+                 "neither proved nor bounded-checked; both methods use the same index expression (by reading)"],
+    technique="Kani/CBMC contract proof of the 8-slot bucket over fully symbolic content + Verus proof of the table over a Vec of "
+              "any length on verbatim function bodies",
+    level_text="Proof: the bucket contract is decided completely (all 8 slots, keys and entries symbolic); the table contract "
+               "(representation invariant used_slots == number of occupied slots, lookup returns the entry under exactly that "
+               "key, frame and displacement clauses) is proved by Verus for every bucket count on the verbatim bodies of "
+               "find/insert/entries/max_entries; histories follow by induction over these contracts.",
+    level_note="Concurrency is assumed through the lock discipline, not proved. The RwLock routing layer is not verified.",
+)
+
 PROPS["C20"].update(
     technique="Kani/CBMC: constructor/accessor contracts discharged by loop-free harnesses over the whole attribute "
               "domain; Kani function contracts on the bit-field primitives",
@@ -156,5 +225,5 @@ NOT_APPLICABLE = {
            "(OS randomness, scheduling, RandomState) the property is about",
 }
 _PENDING = "check under construction in this commit of /verif; not claimed yet (see DESIGN.md section 4 for the plan)"
-for _p in ["C01", "C02", "C03", "C05", "C08", "C09", "C10", "C11", "C12", "C13", "C14", "C15", "C17"]:
+for _p in ["C01", "C03", "C05", "C08", "C09", "C10", "C11", "C12", "C13", "C14", "C17"]:
     NOT_APPLICABLE.setdefault(_p, _PENDING)
